@@ -11,7 +11,8 @@ A *system spec* is a JSON-able dict:
                "type": "float" | "int" | "bool" | "str" | "date" | ["enum", "member", "names"],
                "unit": "month" | "year" | "day" | "week" | "weekday" | "eternity",   # definition period
                "default": 0,        # float/int: number, bool, str, date: proleptic ordinal, enum: member index
-               "rule": "absent" | "dispatch" | "divide"}]}   # the variable's `set_input` attribute
+               "rule": "absent" | "dispatch" | "divide",     # the variable's `set_input` attribute
+               "end": "YYYY-MM-DD"}]}                        # optional: the variable's (inclusive) `end` date
 
 `make_system(spec)` returns a real `TaxBenefitSystem` (cached per spec); nothing of the repository's test
 fixtures is needed.  `read_simulation(sim, spec)` returns the observable content of a simulation
@@ -49,11 +50,15 @@ def group(key, plural, roles):
     return {"key": key, "plural": plural, "roles": list(roles)}
 
 
-def var(name, entity, vtype, unit="month", default=None, rule="absent"):
-    """One variable description; `default=None` takes the value type's own default (enum: member 0)."""
+def var(name, entity, vtype, unit="month", default=None, rule="absent", end=None):
+    """One variable description; `default=None` takes the value type's own default (enum: member 0);
+    `end` = the date ("YYYY-MM-DD", inclusive) after which the variable no longer exists."""
     if default is None:
         default = 0 if isinstance(vtype, list) else TYPE_DEFAULTS[vtype]
-    return {"name": name, "entity": entity, "type": vtype, "unit": unit, "default": default, "rule": rule}
+    d = {"name": name, "entity": entity, "type": vtype, "unit": unit, "default": default, "rule": rule}
+    if end is not None:
+        d["end"] = end
+    return d
 
 
 def system_spec(groups, variables, pk="person", pp="persons"):
@@ -90,6 +95,9 @@ def all_types_variables(entity_key: str, prefix: str, enum_names=("red", "green"
         var(p + "y", entity_key, "float", "year"), var(p + "dy", entity_key, "int", "day"),
         var(p + "w", entity_key, "float", "week"), var(p + "wd", entity_key, "int", "weekday"),
         var(p + "ee", entity_key, list(enum_names), "eternity", 0),
+        # variables with an `end`: on the first day of a period, inside a period, on a day, on a 1st of January
+        var(p + "fe", entity_key, "float", "month", end="2018-02-01"), var(p + "ie", entity_key, "int", "month", end="2018-02-15"),
+        var(p + "de", entity_key, "int", "day", end="2018-01-15"), var(p + "ye", entity_key, "float", "year", end="2018-01-01"),
     ]
 
 
@@ -149,6 +157,8 @@ def make_system(spec: dict):
             attrs["default_value"] = d
         if rules[v["rule"]] is not None:
             attrs["set_input"] = rules[v["rule"]]
+        if v.get("end"):
+            attrs["end"] = v["end"]
         tbs.add_variable(type(v["name"], (variables.Variable,), attrs))
     if len(_SYSTEMS) > 48:
         _SYSTEMS.clear()
